@@ -81,46 +81,69 @@ func Apply(op string, c *grammar.CFG) (out *grammar.CFG, kind, msg string) {
 	return out, "", ""
 }
 
-// ---------------------------------------------------------------- terminals named like non-terminals
+// ---------------------------------------------------------------- names and words
 //
-// The library tells Terminal("if") and NonTerminal("if") apart by type; the shared line protocol tells
-// body words apart by name.  In the case files of C08/C09 a word that starts with ' is the terminal named by
-// the rest of the word.  The canonical form (used inside the harness, in case files and in the printed result
-// grammars on both sides) writes the quote exactly when the bare name is a declared non-terminal of that
-// grammar; sentences are printed with bare names.
+// The library tells Terminal("if") and NonTerminal("if") apart by type and accepts ANY Go string as a name; the shared
+// line protocol has words.  C08/C09 use the word format of C10 (harness/gx/names.go: EncName / DecName, the same functions as harness/c10; the Lean drivers decode
+// with Model/NameCodec.lean): a word is [marker] + EncName(name); the marker ' says terminal, ^ says non-terminal (declared
+// or not); without a marker a word is a non-terminal iff it is listed in `nonterms`.  The canonical form (used inside the
+// harness, in case files and in the printed result grammars on both sides) writes the quote exactly when the bare word is a
+// declared non-terminal of that grammar; sentences are printed with bare words.  EncName escapes blanks, %, a leading ' or ^,
+// the arrow, the empty name and the names $ and ε, so a name with blanks is still ONE word and words are in 1-1
+// correspondence with names; the raw endmarker character (U+EEEE) stands for itself.
 
 const Q = "'"
 
-// Bare strips the terminal quote.
+// Bare strips the terminal quote (the result is still a word).
 func Bare(w string) string { return strings.TrimPrefix(w, Q) }
+
+// NameOf is the name a word (with or without marker) stands for.
+func NameOf(w string) string {
+	return gx.DecName(strings.TrimPrefix(strings.TrimPrefix(w, Q), "^"))
+}
+
+// WordOf is the canonical bare word of a name.
+func WordOf(name string) string { return gx.EncName(name) }
+
+func canonBare(w string) string { return gx.EncName(gx.DecName(w)) }
 
 func isTermWord(g gx.G, w string) bool {
 	return !strings.HasPrefix(w, "^") && (strings.HasPrefix(w, Q) || !g.IsNonTerm(w))
 }
 
-// Norm rewrites every terminal word into canonical form.
+// Norm rewrites every word into canonical form.
 func Norm(g gx.G) gx.G {
-	canon := func(w string) string {
-		if !isTermWord(g, w) {
-			return w
-		}
-		if b := Bare(w); g.IsNonTerm(b) {
+	h := gx.G{Start: canonBare(g.Start)}
+	for _, n := range g.NonTerms {
+		h.NonTerms = append(h.NonTerms, canonBare(n))
+	}
+	tw := func(w string) string {
+		if b := canonBare(Bare(w)); h.IsNonTerm(b) {
 			return Q + b
 		} else {
 			return b
 		}
 	}
-	h := gx.G{NonTerms: append([]string{}, g.NonTerms...), Start: g.Start}
-	for _, t := range g.Terms {
-		b := Bare(t)
-		if g.IsNonTerm(b) {
-			h.Terms = append(h.Terms, Q+b)
-		} else {
-			h.Terms = append(h.Terms, b)
+	canon := func(w string) string {
+		switch {
+		case strings.HasPrefix(w, "^"):
+			if b := canonBare(w[1:]); h.IsNonTerm(b) {
+				return b
+			} else {
+				return "^" + b
+			}
+		case strings.HasPrefix(w, Q):
+			return tw(w)
+		case h.IsNonTerm(canonBare(w)):
+			return canonBare(w)
 		}
+		return tw(w)
+	}
+	for _, t := range g.Terms {
+		h.Terms = append(h.Terms, tw(t))
 	}
 	for _, p := range g.Prods {
-		q := gx.P{Head: p.Head}
+		q := gx.P{Head: canonBare(strings.TrimPrefix(p.Head, "^"))}
 		for _, w := range p.Body {
 			q.Body = append(q.Body, canon(w))
 		}
@@ -129,15 +152,16 @@ func Norm(g gx.G) gx.G {
 	return h
 }
 
-// ToCFG builds the library grammar from a canonical gx.G (terminals get their bare names).
+// ToCFG builds the library grammar from a canonical gx.G (symbols get the names their words stand for).  The slices handed
+// to NewCFG are the caller's: they are overwritten afterwards (the grammar must have copied what it needs).
 func ToCFG(g gx.G) *grammar.CFG {
 	ts := make([]grammar.Terminal, len(g.Terms))
 	for i, t := range g.Terms {
-		ts[i] = grammar.Terminal(Bare(t))
+		ts[i] = grammar.Terminal(NameOf(t))
 	}
 	ns := make([]grammar.NonTerminal, len(g.NonTerms))
 	for i, n := range g.NonTerms {
-		ns[i] = grammar.NonTerminal(n)
+		ns[i] = grammar.NonTerminal(NameOf(n))
 	}
 	ps := make([]*grammar.Production, len(g.Prods))
 	for i, p := range g.Prods {
@@ -145,16 +169,26 @@ func ToCFG(g gx.G) *grammar.CFG {
 		for _, w := range p.Body {
 			switch {
 			case strings.HasPrefix(w, "^"): // the non-terminal named by the rest, declared or not (malformed grammars)
-				body = append(body, grammar.NonTerminal(w[1:]))
+				body = append(body, grammar.NonTerminal(NameOf(w)))
 			case isTermWord(g, w):
-				body = append(body, grammar.Terminal(Bare(w)))
+				body = append(body, grammar.Terminal(NameOf(w)))
 			default:
-				body = append(body, grammar.NonTerminal(w))
+				body = append(body, grammar.NonTerminal(NameOf(w)))
 			}
 		}
-		ps[i] = &grammar.Production{Head: grammar.NonTerminal(p.Head), Body: body}
+		ps[i] = &grammar.Production{Head: grammar.NonTerminal(NameOf(p.Head)), Body: body}
 	}
-	return grammar.NewCFG(ts, ns, ps, grammar.NonTerminal(g.Start))
+	c := grammar.NewCFG(ts, ns, ps, grammar.NonTerminal(NameOf(g.Start)))
+	for i := range ts {
+		ts[i] = "\x00overwritten"
+	}
+	for i := range ns {
+		ns[i] = "\x00overwritten"
+	}
+	for i := range ps {
+		ps[i] = nil
+	}
+	return c
 }
 
 // FromCFG reads a library grammar back into canonical form (sorted). It reads every set and every
@@ -163,15 +197,17 @@ func FromCFG(c *grammar.CFG) gx.G {
 	var g gx.G
 	isN := map[string]bool{}
 	for n := range c.NonTerminals.All() {
-		g.NonTerms = append(g.NonTerms, string(n))
-		isN[string(n)] = true
+		w := WordOf(string(n))
+		g.NonTerms = append(g.NonTerms, w)
+		isN[w] = true
 	}
-	// heads and body non-terminals that are not declared must still be told apart from terminals
+	// a terminal whose word is a declared non-terminal carries the quote
 	tw := func(t grammar.Terminal) string {
-		if isN[string(t)] {
-			return Q + string(t)
+		if w := WordOf(string(t)); isN[w] {
+			return Q + w
+		} else {
+			return w
 		}
-		return string(t)
 	}
 	for t := range c.Terminals.All() {
 		g.Terms = append(g.Terms, tw(t))
@@ -179,12 +215,12 @@ func FromCFG(c *grammar.CFG) gx.G {
 	sort.Strings(g.Terms)
 	sort.Strings(g.NonTerms)
 	for p := range c.Productions.All() {
-		q := gx.P{Head: string(p.Head)}
+		q := gx.P{Head: WordOf(string(p.Head))}
 		for _, s := range p.Body {
 			if t, ok := s.(grammar.Terminal); ok {
 				q.Body = append(q.Body, tw(t))
 			} else {
-				q.Body = append(q.Body, s.Name())
+				q.Body = append(q.Body, WordOf(s.Name()))
 			}
 		}
 		g.Prods = append(g.Prods, q)
@@ -196,7 +232,7 @@ func FromCFG(c *grammar.CFG) gx.G {
 		return p.Head + "→" + strings.Join(p.Body, " ")
 	}
 	sort.Slice(g.Prods, func(i, j int) bool { return key(g.Prods[i]) < key(g.Prods[j]) })
-	g.Start = string(c.Start)
+	g.Start = WordOf(string(c.Start))
 	return g
 }
 
@@ -476,7 +512,10 @@ func LooseCNF(g gx.G) bool {
 // transformation) and results often equal their input.
 var langCache = map[string]map[string]bool{}
 
-// LangOf is gx.LangK with a small memo.
+// LangOf is gx.LangK with a small memo.  Beyond the default bounds (k > OracleK: grammars whose shortest sentences are long)
+// the enumeration is capped at 20000 sentences per non-terminal; BoundFor only picks such a k for an input whose language
+// up to k is small, so hitting the cap on the result means the result has (many) more sentences, and the partial set
+// returned differs from the input's.
 func LangOf(g gx.G, k int) map[string]bool {
 	key := fmt.Sprintf("%d|%s", k, g.Show())
 	if l, ok := langCache[key]; ok {
@@ -485,7 +524,15 @@ func LangOf(g gx.G, k int) map[string]bool {
 	if len(langCache) > 256 {
 		langCache = map[string]map[string]bool{}
 	}
-	l := g.LangK(k)
+	var l map[string]bool
+	if k > OracleK {
+		var ok bool
+		if l, ok = g.LangKCap(k, 20000); !ok {
+			l = map[string]bool{"(more than 20000 sentences)": true}
+		}
+	} else {
+		l = g.LangK(k)
+	}
 	langCache[key] = l
 	return l
 }
@@ -509,16 +556,38 @@ func BareLang(l map[string]bool) map[string]bool {
 
 // BoundFor picks the length bound of the language comparison for input grammar g: 6, lowered to 5 or 4
 // for grammars whose language is so dense (more than 60 / 200 sentences of length <= 4) that the
-// fixpoint enumeration up to 6 would dominate the run.
+// fixpoint enumeration up to 6 would dominate the run.  When the shortest sentence of g is longer than that (bodies of 65
+// symbols, chains of 130 non-terminals) the bound is the length of a shortest sentence plus 3, provided g has at most 300
+// sentences up to there (otherwise the default stands, and the comparison is vacuous for that grammar).
 func BoundFor(g gx.G) int {
+	key := g.Show()
+	if k, ok := boundCache[key]; ok {
+		return k
+	}
+	if len(boundCache) > 256 {
+		boundCache = map[string]int{}
+	}
+	k := boundFor(g)
+	boundCache[key] = k
+	return k
+}
+
+var boundCache = map[string]int{}
+
+func boundFor(g gx.G) int {
+	k := 4
 	switch n := len(LangOf(g, 4)); {
 	case n <= 60:
-		return 6
+		k = 6
 	case n <= 200:
-		return 5
-	default:
-		return 4
+		k = 5
 	}
+	if m, ok := g.MinLen()[g.Start]; ok && m > k && m <= 1200 { // L_k(g) is empty: no sentence is that short
+		if l, ok := g.LangKCap(m+3, 300); ok && len(l) <= 300 {
+			return m + 3
+		}
+	}
+	return k
 }
 
 // SameLang compares the sentences of length ≤ k; on a difference it names one sentence.
@@ -566,8 +635,8 @@ func SameLang(a, b gx.G, k int) (bool, string) {
 // ---------------------------------------------------------------- bookkeeping
 
 // SigLimiter runs cases through hx.Run.Do. hx records at most 20 violations per run; inadmissible steps that
-// carry a known-finding signature would fill that list and crowd out any other violation. After three
-// recorded instances of one (component, signature) further instances are only counted in the histogram
+// carry a known-finding signature would fill that list and crowd out any other violation (C09 has eight (component,
+// signature) pairs). After the first recorded instance of one (component, signature) further instances are only counted in the histogram
 // (tag "repeat:<signature>"); steps without a signature are never touched.
 type SigLimiter struct {
 	n map[string]int
@@ -579,7 +648,7 @@ func (s *SigLimiter) Do(run *hx.Run, comp string, c hx.Case, exec hx.Exec) hx.Re
 	}
 	wrapped := func(c hx.Case) hx.Result {
 		r := exec(c)
-		if r.BadOp >= 0 && r.Sig != "" && s.n[comp+"/"+r.Sig] >= 3 {
+		if r.BadOp >= 0 && r.Sig != "" && s.n[comp+"/"+r.Sig] >= 1 {
 			r.Tags = append(r.Tags, "repeat:"+r.Sig)
 			r.BadOp, r.What = -1, ""
 		}
